@@ -15,6 +15,7 @@ pub fn run(entry: &str, v: &Value) -> Option<Result<String, String>> {
         "svs_cancel_during_next" => svs_cancel_during_next(),
         "svs_producer_panic" => svs_producer_panic(),
         "svs_early_stop_releases" => svs_early_stop_releases(),
+        "svs_depths_and_slow_consumer" => svs_depths_and_slow_consumer(),
         "fleet_wide_broadcast" => fleet_wide_broadcast(v),
         "fleet_health_probe_malformed" => fleet_health_probe_malformed(),
         "ws_default_limits" => rt2(ws_default_limits()),
@@ -201,6 +202,30 @@ async fn server_query_parity() -> Result<String, String> {
                 other => return Err(format!("async TCP server with only a write timeout (300 ms): request {id}, sent after an idle pause of {pause} ms, got {:?}; a write timeout bounds writes, it is not an idle timeout", other.map(|m| (m.header.id, m.header.ec)))),
             }
         }
+    }
+    // the same for the blocking server
+    {
+        let idle: Result<(), String> = tokio::task::spawn_blocking(|| {
+            let listener = std::net::TcpListener::bind(("127.0.0.1", 0)).unwrap();
+            let addr = listener.local_addr().unwrap();
+            std::thread::spawn(move || {
+                let _ = repe::Server::new(repe::Router::new().with_json("/echo", |v: Value| Ok(v))).write_timeout(Some(Duration::from_millis(300))).serve(listener);
+            });
+            let mut stream = std::net::TcpStream::connect(addr).unwrap();
+            stream.set_read_timeout(Some(Duration::from_secs(30))).unwrap();
+            for (id, pause) in [(1u64, 0u64), (2, 900), (3, 0)] {
+                std::thread::sleep(Duration::from_millis(pause));
+                let r = repe::write_message(&mut stream, &parity_request(id, "/echo", false)).map_err(|e| e.to_string()).and_then(|_| repe::read_message(&mut stream).map_err(|e| e.to_string()));
+                match r {
+                    Ok(m) if m.header.id == id && m.header.ec == 0 => {}
+                    other => return Err(format!("blocking TCP server with only a write timeout (300 ms): request {id}, sent after an idle pause of {pause} ms, got {:?}; a write timeout bounds writes, it is not an idle timeout", other.map(|m| (m.header.id, m.header.ec)))),
+                }
+            }
+            Ok(())
+        })
+        .await
+        .unwrap();
+        idle?;
     }
     let r = parity_router(hits[3].clone());
     let blocking = tokio::task::spawn_blocking(move || parity_blocking(r)).await.unwrap()?;
@@ -1845,4 +1870,104 @@ fn transfer_registry_map() -> Result<String, String> {
         return Err("unregister(7) left the id registered".into());
     }
     Ok("latest registration wins, routed ack wakes the parked producer, unregister removes".into())
+}
+
+// ---------------------------------------------------------------------------------------------
+// C09 over configurations: (a) every session depth 0..8 delivers the payload byte-exactly (depth 0
+// is a rendezvous channel); (b) a server with only a write timeout serves a consumer that pauses
+// longer than that timeout between two pulls: the stream continues to its end marker.
+fn svs_depths_and_slow_consumer() -> Result<String, String> {
+    use repe::value_stream::{Compression, RouterValueStreamExt, StreamOpts, ROUTE_NEXT, ROUTE_OPEN};
+    use std::io::Write;
+    #[derive(serde::Serialize)]
+    struct OpenRequest {
+        resource: String,
+    }
+    #[derive(serde::Deserialize)]
+    struct OpenResponse {
+        #[allow(dead_code)]
+        version: u8,
+        stream_id: u64,
+        #[allow(dead_code)]
+        format: u16,
+        #[allow(dead_code)]
+        compression: u8,
+    }
+    #[derive(serde::Serialize)]
+    struct NextRequest {
+        stream_id: u64,
+    }
+    let payload: Vec<u8> = (0..100usize).map(|i| (i * 13 + 5) as u8).collect();
+    let mut n = 0;
+    for depth in [0usize, 1, 2, 3, 8] {
+        for compression in [Compression::None, Compression::Zstd] {
+            let p2 = payload.clone();
+            let opts = StreamOpts { chunk_bytes: 16, compression, zstd_level: 3, session_depth: depth };
+            let router = repe::Router::new().with_writer_stream(
+                repe::BodyFormat::RawBinary,
+                move |_r: &str| {
+                    let p = p2.clone();
+                    Some(move |w: &mut dyn Write| -> std::io::Result<()> { w.write_all(&p) })
+                },
+                opts,
+            );
+            let server = repe::Server::new(router);
+            let listener = server.listen("127.0.0.1:0").map_err(|e| e.to_string())?;
+            let addr = listener.local_addr().unwrap();
+            std::thread::spawn(move || {
+                let _ = server.serve(listener);
+            });
+            let client = repe::Client::connect(addr).map_err(|e| e.to_string())?;
+            let (tx, rx) = std::sync::mpsc::channel();
+            std::thread::spawn(move || {
+                let _ = tx.send(repe::pull_to_vec(&client, "x"));
+            });
+            match rx.recv_timeout(Duration::from_secs(30)) {
+                Ok(Ok(v)) if v == payload => {}
+                Ok(other) => return Err(format!("session_depth {depth}, {compression:?}: a 100-byte payload in 16-byte chunks was pulled as {:?}", other.map(|v| v.len()).map_err(|e| e.to_string()))),
+                Err(_) => return Err(format!("session_depth {depth}, {compression:?}: the pull did not finish within 30 s")),
+            }
+            n += 1;
+        }
+    }
+    // (b) slow consumer against a server with only a write timeout
+    let p2 = payload.clone();
+    let router = repe::Router::new().with_writer_stream(
+        repe::BodyFormat::RawBinary,
+        move |_r: &str| {
+            let p = p2.clone();
+            Some(move |w: &mut dyn Write| -> std::io::Result<()> { w.write_all(&p) })
+        },
+        StreamOpts { chunk_bytes: 16, compression: Compression::None, zstd_level: 3, session_depth: 2 },
+    );
+    let server = repe::Server::new(router).write_timeout(Some(Duration::from_millis(300)));
+    let listener = server.listen("127.0.0.1:0").map_err(|e| e.to_string())?;
+    let addr = listener.local_addr().unwrap();
+    std::thread::spawn(move || {
+        let _ = server.serve(listener);
+    });
+    let client = repe::Client::connect(addr).map_err(|e| e.to_string())?;
+    let call = |route: &str, body: Vec<u8>| client.call_with_formats(route, repe::QueryFormat::JsonPointer as u16, Some(&body), repe::BodyFormat::Beve as u16);
+    let open: OpenResponse = call(ROUTE_OPEN, beve::to_vec(&OpenRequest { resource: "x".into() }).unwrap()).map_err(|e| format!("open: {e}"))?.beve_body().map_err(|e| e.to_string())?;
+    let mut got = Vec::new();
+    let mut last = false;
+    for k in 0..20 {
+        if k == 2 {
+            std::thread::sleep(Duration::from_millis(900)); // longer than the server's WRITE timeout; nothing is being written meanwhile
+        }
+        match call(ROUTE_NEXT, beve::to_vec(&NextRequest { stream_id: open.stream_id }).unwrap()) {
+            Ok(m) => {
+                got.extend_from_slice(&m.body);
+                if m.query.first().copied() == Some(1) {
+                    last = true;
+                    break;
+                }
+            }
+            Err(e) => return Err(format!("a consumer that paused 900 ms between two pulls lost its stream on a server configured with only write_timeout(300 ms): next #{k} failed with {e} after {} of 100 bytes", got.len())),
+        }
+    }
+    if !last || got != payload {
+        return Err(format!("slow consumer: stream ended={last} with {} of 100 bytes", got.len()));
+    }
+    Ok(format!("{n} depth/compression combinations byte-exact; slow consumer served to the end marker"))
 }
